@@ -530,6 +530,18 @@ let check_case (c : case) (findings : Buffer.t) : int * int * bool =
     let out_m_s = outcome_str out_m in
     let out_i_s = outcome_str real_out in
     if div = None && out_m_s <> out_i_s then diff "OUTCOME" (n - 1) c.out out_m_s;
+    (* C14: a layout that loading accepts runs without crashing - the event loop included.  With repeat timings that are
+       not negative the loop never panics (theorem C14_event_loop_does_not_panic); a panic of the REAL loop on such a
+       layout is a failure of C14 whatever the model's own outcome *)
+    let nonneg = List.for_all (fun m -> match m.m_repeat with
+        | RSpecial (_, d, iv) -> not (x_zltb d Z0) && not (x_zltb iv Z0)
+        | _ -> true) c.layout in
+    if nonneg && outcome_str real_out = "panic" && not (Hashtbl.mem seen "C14.loop_panic") then begin
+      Hashtbl.add seen "C14.loop_panic" ();
+      define ();
+      Buffer.add_string findings
+        (Printf.sprintf "MONITOR case=%s clause=C14.loop_panic index=%d observed=the_event_loop_panicked expected=Ok_or_Err\n" c.id (max 0 (n - 1)))
+    end;
     (* per-property observations *)
     (* the payload of a send that directly follows a read is abstracted to "what the mapper returned for that read"
        when it is exactly that (real side: the RM lines of the real Mapper; model side: always, by
